@@ -297,6 +297,21 @@ theorem C12_knn_all [Bounded O] [DecidableEq O] {order : List Rat → List Nat} 
   · subst hk; exact C12_knn_one hO t hwf px py hv
   · exact C12_knn hO t hwf k hk px py
 
+/-- **C12_knn_empty** — on a tree that stores nothing (fresh, or emptied by deletes)
+`NearestNeighbors(k, p)` does not panic for any k — k = 1 included, unlike `NearestNeighbor`
+(`C12_empty`) — and returns k nil slots. -/
+theorem C12_knn_empty [Bounded O] [DecidableEq O] {order : List Rat → List Nat} (hO : OrderOK order)
+    (t : C11.Tree O) (hwf : t.WF = true) (he : t.abs = []) (k : Nat) (px py : Rat)
+    (hv : ∀ o : O, (Bounded.bounds o).valid = true) :
+    nearestNeighbors order t k px py = .ok (List.replicate k none) := by
+  obtain ⟨res, h1, h2⟩ := C12_knn_all hO t hwf k px py hv
+  rw [h1]; congr 1
+  unfold specKNN at h2
+  simp only [he, Bool.and_eq_true, decide_eq_true_eq, List.length_nil, Nat.min_zero] at h2
+  obtain ⟨⟨⟨⟨⟨_, hres⟩, hlen⟩, _⟩, _⟩, _⟩ := h2
+  have h0 : res.filterMap id = [] := List.length_eq_zero_iff.mp hlen
+  rw [hres, h0]; simp
+
 /-! ### histories with interleaved queries: answers do not depend on earlier queries -/
 
 theorem runSteps_tree [DecidableEq O] [Bounded O] (H : Heur) (order : List Rat → List Nat) :
